@@ -28,12 +28,17 @@
                   end = tls | hdr | wr | ctx | rep | <status of the proxy's reply>
           after = mre.<w> | pass.<w> | tun.<writeError|drainFailure|closed>.<forced>
           events: e = failed dial, o = connection dialled, c = Close call (comma list, `~` = empty)
+    life <layout> <proxy> <tls> <ops>         → ok accepted=<a> errors=<e> active=<g> closed=<k> open=<sockets the proxy still holds> dropped=<n> allreturned=<0|1>
+          accepted connections up to their first request on a listener with / without the PROXY protocol and TLS
+          layout = code (defer conn.Close() before anything that can fail) | hsfirst (handshake above the defer)
+          op = a (accept) | e (accept error) | <i>.ok (the current phase of connection i succeeds) |
+               <i>.fp (it fails: peer) | <i>.ft (it fails: the layer's timer)
 
   events:   r.<METHOD> | w.<METHOD>.<status>      (comma list, `~` = empty)
   inflight: <METHOD>:<int>,…   (methods with a series, i.e. that occurred in an event)
   total:    <status>.<METHOD>:<n>,…
 -/
-import FwdVerif.Model.C13
+import FwdVerif.Model.C13Life
 
 namespace FwdVerif
 namespace C13
@@ -258,6 +263,21 @@ def encodeDEv : DEv → String
   | .opened => "o"
   | .close => "c"
 
+def decodeALOp (s : String) : Option ALOp :=
+  if s = "a" then some .accept
+  else if s = "e" then some .acceptError
+  else
+    match s.splitOn "." with
+    | [i, "ok"] => (natOf i).map fun i => .conn i .ok
+    | [i, "fp"] => (natOf i).map fun i => .conn i (.fail .peer)
+    | [i, "ft"] => (natOf i).map fun i => .conn i (.fail .timeout)
+    | _ => none
+
+def decodeLayout : String → Option Layout
+  | "code" => some .code
+  | "hsfirst" => some .handshakeFirst
+  | _ => none
+
 def handle : List String → String
   | ["path", kind, method, status, werr] =>
     match decodePath kind method status werr with
@@ -341,6 +361,12 @@ def handle : List String → String
       let st := LSt.init.run true (dialOps 0 evs)
       s!"ok conn={ofBool x.result.conn} err={ofBool x.result.err} events={joinList (evs.map encodeDEv)} opened={ofBool (decide (DEv.opened ∈ evs))} dialerr={ofBool (decide (DEv.dialError ∈ evs))} closes={closesOf evs} active={st.active} allgone={ofBool st.allGone}"
     | _, _, _, _, _, _ => "bad-op"
+  | ["life", layout, proxy, tls, ops] =>
+    match decodeLayout layout, boolOf proxy, boolOf tls, (splitList ops).mapM decodeALOp with
+    | some lay, some p, some t, some ops =>
+      let s := ALSt.init.run lay ⟨p, t⟩ ops
+      s!"ok accepted={s.accepted} errors={s.errors} active={s.active} closed={s.closedCount} open={s.openSockets} dropped={s.dropped} allreturned={ofBool s.allReturned}"
+    | _, _, _, _ => "bad-op"
   | _ => "bad-op"
 
 end C13
